@@ -441,6 +441,53 @@ def judge_cli(ctx, idx, op, impl, mi, ms, reason):
     return f
 
 
+def judge_c10(ctx, idx, op, impl, mi, ms, reason):
+    if op[0] != "lsn":
+        return same(ctx, idx, op, impl, mi, "set-up")
+    f = same(ctx, idx, op, impl, mi, "Accept (listener transition system) <-> DiameterServer::listen over loopback TCP")
+    lab = label_kv(" ".join(op[1:]))
+    ctx.count("scenario_%s_%s_tls%s" % (lab.get("fault"), lab.get("when"), lab.get("tls")))
+    m = re.match(r"clients=(\S*) astray=(\d+) late=(\d+)$", impl)
+    if not m:
+        f.append(Finding("property", idx, "the listener scenario did not complete (%s)" % impl[:60], expected=mi, observed=impl[:200], name="C10_accept_enabled"))
+        return f
+    per = [int(x) for x in m.group(1).split(",") if x]
+    reqs = int(lab.get("reqs", "0"))
+    bad = None
+    if int(m.group(2)) > 0:
+        bad = "an answer was written to a connection that did not carry its request (%s astray)" % m.group(2)
+    elif any(x != reqs for x in per) or len(per) != int(lab.get("good", "0")):
+        bad = "a well-behaved connection did not receive all its answers while another peer misbehaved (%s of %d each)" % (m.group(1), reqs)
+    elif int(m.group(3)) != 2:
+        bad = "a connection opened after the fault was not served: the listener stopped accepting"
+    if bad:
+        f.append(Finding("property", idx, bad, expected=mi, observed=impl, name="C10_answers_routed" if "astray" in bad else "C10_accept_enabled"))
+    return f
+
+
+def judge_c13(ctx, idx, op, impl, mi, ms, reason):
+    if op[0] != "tls":
+        return same(ctx, idx, op, impl, mi, "set-up")
+    if impl.startswith("skipped"):
+        ctx.count("skipped_no_ipv6")
+        return []
+    f = same(ctx, idx, op, impl, mi, "Tls.outcome (decision glue + assumed TLS library) <-> DiameterClient::connect / DiameterServer::listen")
+    lab = label_kv(" ".join(op[1:]))
+    cls = impl.split(" ")[0]
+    r = kv(impl)
+    ctx.count("cell_" + cls)
+    bad = None
+    if lab.get("ctls") == "1" and r.get("clear") == "1":
+        bad = "with TLS enabled the client put Diameter octets on the socket in clear text"
+    elif lab.get("stls") == "1" and lab.get("ctls") == "0" and (r.get("served") == "1" or r.get("answered") == "1"):
+        bad = "a server configured with a TLS identity processed / answered a plain-text request"
+    elif cls != ms:
+        bad = "outcome `%s` where the configuration demands `%s`" % (cls, ms)
+    if bad:
+        f.append(Finding("property", idx, bad, expected=ms, observed=impl, name="C13_table"))
+    return f
+
+
 def judge_c14(ctx, idx, op, impl, mi, ms, reason):
     if op[0] == "dbyname":
         # any live definition carrying the name is a correct answer (membership, not identity)
@@ -599,6 +646,8 @@ PROPS = {
     "C07": dict(family="c07", judge=judge_c07, probes=("sdec",), title="Hostile frame lengths on a stream are refused cheaply and safely"),
     "C08": dict(family="c08", judge=judge_c08, probes=("serve",), title="Server answers each request exactly once, in order, unmodified"),
     "C09": dict(family="c09", judge=judge_c08, probes=("serve",), title="Server survives connection loss at any byte offset"),
+    "C10": dict(family="c10", judge=judge_c10, probes=("lsn",), title="One misbehaving connection cannot disturb the others"),
+    "C13": dict(family="c13", judge=judge_c13, probes=("tls",), title="TLS settings are honoured exactly"),
     "C11": dict(family="c11", judge=judge_cli, probes=("cli",), model_input=cli_model_input, title="Client delivers each answer to the request it belongs to"),
     "C12": dict(family="c12", judge=judge_cli, probes=("cli",), model_input=cli_model_input, title="Every response future eventually completes"),
     "C14": dict(family="c14", judge=judge_c14, probes=("dget", "dbyname", "dapp", "dcmd"), title="Dictionary lookups reflect exactly what was loaded, latest wins"),
